@@ -134,38 +134,54 @@ def run_batch(prop, tier, master, n_ff, n_f, workers, deadline):
              "oracle": Counter(), "digests": {}, "trans": set(), "viol": [],
              "samples": [], "errors": [], "known": Counter(), "wall": 0.0,
              "runs_ff": 0, "runs_f": 0, "skipped_jobs": 0, "notes": []}
-    with ProcessPoolExecutor(max_workers=workers, mp_context=ctx) as ex:
-        futs = {ex.submit(work, prop, master, idxs, tier, faults): (faults, idxs)
-                for faults, idxs in jobs}
-        try:
-            for fu in as_completed(futs, timeout=max(1, deadline - time.time())):
-                faults, idxs = futs[fu]
-                try:
-                    a = fu.result()
-                except Exception:
-                    total["errors"].append({"tb": traceback.format_exc(), "idxs": idxs})
-                    continue
-                for k in ("runs", "ops", "wall"):
-                    total[k] += a[k]
-                total["runs_f" if faults else "runs_ff"] += a["runs"]
-                for k in ("stats", "probes", "oracle", "known"):
-                    total[k].update(a[k])
-                total["digests"].update(a["digests"])
-                total["trans"] |= set(a["trans"])
-                total["viol"] += a["viol"]
-                total["errors"] += a["errors"]
-                total["notes"] += a["notes"][:1]
-                if len(total["samples"]) < 3:
-                    total["samples"] += a["samples"][:1]
-        except Exception:
-            total["errors"].append({"tb": "batch deadline reached: " + traceback.format_exc()})
-            for fu in futs:
-                fu.cancel()
-            for p in list(getattr(ex, "_processes", {}).values()):
-                try:
-                    p.terminate()
-                except Exception:
-                    pass
+    pending = list(jobs)
+    for attempt in (1, 2):
+        # a worker that dies (watchdog, kernel OOM) breaks the whole pool: the jobs
+        # that did not complete are retried once in a fresh pool; a second failure
+        # is a harness error
+        failed = []
+        with ProcessPoolExecutor(max_workers=workers, mp_context=ctx) as ex:
+            futs = {ex.submit(work, prop, master, idxs, tier, faults): (faults, idxs)
+                    for faults, idxs in pending}
+            try:
+                for fu in as_completed(futs, timeout=max(1, deadline - time.time())):
+                    faults, idxs = futs[fu]
+                    try:
+                        a = fu.result()
+                    except Exception:
+                        failed.append(((faults, idxs), traceback.format_exc()))
+                        continue
+                    for k in ("runs", "ops", "wall"):
+                        total[k] += a[k]
+                    total["runs_f" if faults else "runs_ff"] += a["runs"]
+                    for k in ("stats", "probes", "oracle", "known"):
+                        total[k].update(a[k])
+                    total["digests"].update(a["digests"])
+                    total["trans"] |= set(a["trans"])
+                    total["viol"] += a["viol"]
+                    total["errors"] += a["errors"]
+                    total["notes"] += a["notes"][:1]
+                    if len(total["samples"]) < 3:
+                        total["samples"] += a["samples"][:1]
+            except Exception:
+                total["errors"].append({"tb": "batch deadline reached: " + traceback.format_exc()})
+                for fu in futs:
+                    fu.cancel()
+                for p in list(getattr(ex, "_processes", {}).values()):
+                    try:
+                        p.terminate()
+                    except Exception:
+                        pass
+                return total
+        if not failed:
+            break
+        if attempt == 1:
+            print("note: %d job(s) lost to a dead worker, retrying once" % len(failed), flush=True)
+            total["skipped_jobs"] += len(failed)
+            pending = [j for j, _ in failed]
+        else:
+            for j, tb in failed[:3]:
+                total["errors"].append({"tb": tb, "idxs": j[1]})
     return total
 
 
